@@ -21,5 +21,6 @@ Proof.
   - split.
     + repeat constructor; simpl; intuition discriminate.
     + intros c Hc. simpl in Hc. repeat (destruct Hc as [<-|Hc]; [split; repeat constructor|]); contradiction.
+    + intros c Hc. simpl in Hc. repeat (destruct Hc as [<-|Hc]; [constructor|]); contradiction.
   - destruct k1_refutes as (bs & m & H1 & H2 & H3 & _ & H5 & _). exists bs, m. auto.
 Qed.
